@@ -1,5 +1,5 @@
 (* Entry point of the extracted model: one request (an s-expression) in, one out. *)
-Require Import BB.Base.Str BB.Base.Sx BB.Base.Xml BB.Model.PreParse BB.Model.Eid BB.Model.PegSyntax BB.Model.Peg BB.Gen.Grammar BB.Base.Dict BB.Model.Types BB.Model.XmlGen BB.Model.Post BB.Model.Convert BB.Model.Unparse.
+Require Import BB.Base.Str BB.Base.Sx BB.Base.Xml BB.Model.PreParse BB.Model.Eid BB.Model.PegSyntax BB.Model.Peg BB.Gen.Grammar BB.Base.Dict BB.Model.Types BB.Model.XmlGen BB.Model.Post BB.Model.Convert BB.Model.Unparse BB.Model.UnparseDoc.
 Open Scope N_scope.
 
 Definition opt_str_sx (o : option str) : sx :=
@@ -78,6 +78,11 @@ Definition dispatch (req : sx) : sx :=
             else if str_eqb fn (of_string "start-end-u") then A (escape_start_end (fun c => c =? 95) (fun c => c =? 95) s)
             else if str_eqb fn (of_string "start-end-sup") then A (escape_start_end (fun _ => false) (fun c => c =? 125) s)
             else sx_err "BadRequest"
+        | _ => sx_err "BadRequest"
+        end
+      else if str_eqb stage (of_string "unp") then
+        match args with
+        | [x] => match xml_of_sx x with Some t => A (unparse_doc t) | None => sx_err "BadRequest" end
         | _ => sx_err "BadRequest"
         end
       else if str_eqb stage (of_string "clean_num") then
